@@ -193,6 +193,10 @@ class IntermediateCodeGen(AbstractCodeGen):
 
                 if parent not in self.symbolTable[module]:
                     raise error.PySmiSemanticError('no symbol "%s" in module "%s"' % (parent, module))
+
+                if 'oid' not in self.symbolTable[module][parent]:
+                    raise error.PySmiSemanticError('symbol "%s" in module "%s" has no OID' % (parent, module))
+
                 numericOid += self.genNumericOid(self.symbolTable[module][parent]['oid'], _seen + (part,))
 
             else:
